@@ -200,7 +200,7 @@ Section BI.
       destruct (prune_one_spec sc pl locals g uids s c) as [a [u [ab [lt [_ [SA [STR [SF [_ SO]]]]]]]]]. cbv zeta in *.
       set (s' := prune_one sc pl locals g uids s (pobj_of_live c)) in *.
       assert (FRM : frame (r_cl s) (r_cl s') (c_id c)).
-      { destruct SO as [[_ [_ C]]|[[_ [_ [C _]]]|[[_ [_ [C _]]]|[[_ [_ [C _]]]|[_ [_ [C _]]]]]]];
+      { destruct SO as [[_ [_ C]]|[[_ [_ [C _]]]|[[_ [_ [C _]]]|[[_ [_ [C _]]]|[[_ [_ [C _]]]|[_ [_ [C _]]]]]]]];
           try (rewrite C; apply frame_refl); exact C. }
       destruct FRM as [_ [F2 [F3 _]]].
       assert (OTH : forall i c', fo c0 i = Some c' -> c_keep c' = true -> i <> c_id c).
@@ -458,15 +458,7 @@ Definition c02_ex_c0 : cluster :=
   mkCl [mkC 0 1%N OOurs true [] false 1 None; mkC 2 2%N OOurs false [] false 1 None] (Some [0; 2]) 3%N.
 
 Example c02_ex_WF : WF c02_ex_sc c02_ex_c0.
-Proof.
-  unfold WF. cbn. split; [|split; [|split; [|split; [|split]]]].
-  - intros _. constructor; [intros []|constructor].
-  - constructor; [intros [H|[]]; discriminate|]. constructor; [intros []|constructor].
-  - intros c [<-|[<-|[]]]; reflexivity.
-  - intros c c' [<-|[<-|[]]] [<-|[<-|[]]]; cbn; intros H; try reflexivity; discriminate.
-  - discriminate.
-  - discriminate.
-Qed.
+Proof. apply wf_b_spec. vm_compute. reflexivity. Qed.
 
 Example c02_ex_run :
   reqs (out_trace (run c02_ex_sc c02_ex_c0)) =
